@@ -446,11 +446,26 @@ func genStruct(r *rand.Rand, o TypeOpts, depth int) *T {
 			if !used[nm] {
 				f.JSON = nm
 			}
+		case 6:
+			// a name that is an option keyword, or the Go identifier of another field of this struct
+			nm := pick(r, []string{"omitempty", "string", "omitzero"})
+			if r.IntN(2) == 0 {
+				if j := r.IntN(n); j != i {
+					nm = fmt.Sprintf("F%d", j)
+				}
+			}
+			if !used[nm] {
+				f.JSON = nm
+			}
 		}
 		if used[f.AvroName()] {
 			f.JSON = ""
 		}
-		used[f.AvroName()] = true
+		if used[f.AvroName()] {
+			f.JSON = fmt.Sprintf("uniq%d", i) // the Go identifier is taken by another field's json name
+		}
+		own := f.AvroName()
+		used[own] = true
 		if r.IntN(3) == 0 {
 			f.Omit = true
 			if r.IntN(5) == 0 {
@@ -469,7 +484,7 @@ func genStruct(r *rand.Rand, o TypeOpts, depth int) *T {
 				f.JSON, f.Omit, f.Extra = "", false, ""
 			}
 			// excluded fields do not occupy a name
-			delete(used, f.AvroName())
+			delete(used, own)
 		}
 		t.Fields = append(t.Fields, f)
 	}
